@@ -18,6 +18,10 @@ _SPECIAL64 = [0x0, 0x8000000000000000, 0x1, 0x800FFFFFFFFFFFFF, 0x7FEFFFFFFFFFFF
 
 
 def f32s(rng, n, mix):
+    if n > 5000:  # bulk: one PRNG draw, then a deterministic ramp (values are all distinct and finite)
+        import numpy as np
+        base = rng.uniform(-1000.0, 1000.0)
+        return (np.arange(n, dtype="<f4") * np.float32(0.25) + np.float32(base)).astype("<f4").tobytes()
     out = bytearray()
     for _ in range(n):
         if mix == "ordinary":
